@@ -57,6 +57,24 @@ def f32_unresolvable(bits, *arrs, scale=1.0, limit=1e-3):
     return mag * abs(scale) * 1.2e-7 > limit
 
 
+def arr_bits(a):
+    return 32 if "32" in str(getattr(a, "dtype", "")) else 64
+
+
+def run_bits(res, scn):
+    """Float width for *tolerances*: the narrower of what was requested and
+    what the stored populations actually use (a run that silently computes in
+    float32 is C15's finding; other oracles must not false-alarm on it)."""
+    bits = dtype_bits(scn["xp"], scn["dtype"])
+    h = res.history
+    pops = list(getattr(h, "sample_history", []) or []) if h is not None else []
+    for p in pops[:2] + pops[-1:]:
+        bits = min(bits, arr_bits(p.x), arr_bits(p.log_likelihood))
+    if res.samples is not None:
+        bits = min(bits, arr_bits(res.samples.x))
+    return bits
+
+
 def f64(v):
     return np.asarray(to_np(v), dtype=np.float64)
 
@@ -96,7 +114,7 @@ def check_history(res, scn, *, resumed=False, props=("c18", "c08")):
     h = res.history
     if h is None or not hasattr(h, "beta"):
         return out
-    bits = dtype_bits(scn["xp"], scn["dtype"])
+    bits = run_bits(res, scn)
     t = tols(bits)
     where = scn_where(scn, resumed=bool(resumed))
     n = len(h.beta)
@@ -110,7 +128,9 @@ def check_history(res, scn, *, resumed=False, props=("c18", "c08")):
                     violation(
                         "c18.series_length",
                         f"history.{k} has {ln} entries for {n} iterations",
-                        where, series=k, got=ln, iterations=n,
+                        {**where, "series": k, "excess": ln - n,
+                         "n_final_set": scn["sample_kwargs"].get("n_final_samples") is not None},
+                        series=k, got=ln, iterations=n,
                     )
                 )
         if len(pops) != n + 1:
@@ -314,7 +334,7 @@ def check_bisection(res, scn, tol=1e-6):
     n = len(beta)
     if len(pops) < n:
         return out, stats
-    bits = dtype_bits(scn["xp"], scn["dtype"])
+    bits = run_bits(res, scn)
     eps = 1e-2 if bits == 32 else 1e-7
     slack = 4 * tol if bits == 64 else max(4 * tol, 1e-4)
     where = scn_where(scn)
@@ -343,11 +363,18 @@ def check_bisection(res, scn, tol=1e-6):
         # the model's own floor arithmetic: which step would the floor give?
         floor_step = False
         if floor > 0:
-            bs = M.beta_star(ll, lp, lq, b0, t0)
-            if adaptive_floor and bs < 1.0:
-                floor = floor * (1 - b0) / (1 - bs)
-            b_floor = min(1.0, b0 + floor)
-            floor_step = abs(b1 - b_floor) <= 1e-9 + (1e-4 * floor if adaptive_floor else 0.0) + (1e-6 if bits == 32 else 0.0)
+            step = b1 - b0
+            if adaptive_floor:
+                # the floor starts at 1/K and is rescaled every step by
+                # (1-b_prev)/(1-b_star) with b_star in [b_prev, b_new]: it is
+                # non-decreasing and telescopes to at most (1/K)/(1-b_new).
+                # b_star is internal, so bracket instead of reconstructing.
+                lo_f = floor * (1 - 1e-6)
+                hi_f = floor / max(1.0 - b1, 1e-300) * (1 + 1e-6)
+                floor_step = (lo_f <= step <= hi_f) or (b1 == 1.0 and 1.0 - b0 <= hi_f)
+            else:
+                b_floor = min(1.0, b0 + floor)
+                floor_step = abs(b1 - b_floor) <= 1e-9 + (1e-6 if bits == 32 else 0.0)
         if b1 <= b0:
             stats["zero_progress"] += 1
             continue  # C06's business (no progress), not the ESS post-condition
@@ -432,7 +459,7 @@ def check_coherence(res, scn, flow=None, include_payloads=True):
     out = []
     target = res.model.target
     flow = flow if flow is not None else (res.aspire.flow if res.aspire is not None else None)
-    bits = dtype_bits(scn["xp"], scn["dtype"])
+    bits = run_bits(res, scn)
     where = scn_where(scn)
     n_checked = 0
     if res.samples is not None:
